@@ -251,6 +251,11 @@ def _signature(clause: str, verdict: dict, res: Dict[str, Any]) -> str:
         return f"C17/StopHangs/{'writer-died:' + w[-1]['exc'] if w else 'writer-alive'}"
     if la:
         return f"C17/{name}/{LOSS_CLASS.get(la, 'model:' + la)}"
+    dr = sorted(st for st, c in verdict["props"] if c == "drift" and st < len(res["ev"]))
+    if dr:   # the run left the model before the files went wrong: the class is the step the model could not follow
+        e = res["ev"][dr[0] - 1]
+        what = f"{e['op']}.{e['ev']}" if e["a"] == "Op" else e["a"]
+        return f"C17/{name}/diverges-from-model@{e['th']}.{what}{'!' + e['exc'] if e['exc'] else ''}"
     fmts = sorted({fm[d] for d in det.get(name, [])})
     return f"C17/{name}/not-in-model:{'fmt:' + fmts[0] if len(fmts) == 1 else 'any-format'}"
 
